@@ -11,7 +11,7 @@ HERE = os.path.dirname(os.path.dirname(os.path.abspath(__file__)))
 CHECKS = {
  "C07": ("model_checking",
          "TLA+ spec PdbReader: TLC exhaustive over all files <= MaxLen lines; every TLC-generated file replayed into the real reader; TLC trace validation (PdbReaderTrace) of observed results",
-         "TLC enumerates every input file up to the bound (19 symbols incl. blank/END/MODEL/ENDMDL/TER/altloc/icode/CRLF/short lines/ATOM- and HETATM-waters, x drop-water; the record-bookkeeping sub-alphabet two lines deeper) on a reader model structured like read_pdb + Biomolecule.__init__, checks AllIngested on it, and each of those files is read by the real code whose projected result must equal the model's; observed results are re-judged by TLC against the declarative Expected(file).",
+         "TLC enumerates every input file up to the bound (21 symbols incl. blank/END/MODEL with and without serial/ENDMDL/TER/altloc/icode/CRLF/short lines/ATOM- and HETATM-waters/water without chain id, x drop-water; files <= 4 lines, the record-bookkeeping sub-alphabet to 6 lines, thorough also 14 symbols to 5 lines) on a reader model structured like read_pdb + Biomolecule.__init__, checks AllIngested on it, and each of those files is read by the real code whose projected result must equal the model's; observed results are re-judged by TLC against the declarative Expected(file).",
          "Assumes WellFormed(file) as stated in the evidence; rendering of abstract lines to PDB text and the projection of Biomolecule objects are harness code; bounded by MaxLen (4 quick, 5 thorough) and the alphabet.",
          "DESIGN.md 6/C07", ["PdbReader", "MC_PdbReader", "PdbReaderTrace"]),
  "C14": ("model_checking",
